@@ -3001,7 +3001,7 @@ func (m *Machine) IsTime(t Time, states S) bool {
 	}
 
 	for i, tick := range t {
-		if m.clock[states[i]] != tick {
+		if i >= len(states) || m.clock[states[i]] != tick {
 			return false
 		}
 	}
@@ -3024,7 +3024,7 @@ func (m *Machine) WasTime(t Time, states S) bool {
 	}
 
 	for i, tick := range t {
-		if m.clock[states[i]] < tick {
+		if i >= len(states) || m.clock[states[i]] < tick {
 			return false
 		}
 	}
